@@ -115,6 +115,31 @@ def run(ctx):
                                                                           "count": len(sweep_bad), "all": [b[1]["call"] for b in sweep_bad],
                                                                           "how_to_replay": "harness/impl_refusals.py (the trial with this label)"})
         ctx.violation("%d refusal trials violate C12, e.g. %s: %r %r" % (len(sweep_bad), what, inp, obs), rp)
+    # generic refusal fuzzer: reflection over every settable attribute and every creating / appending / linking / writing
+    # method of every kind of object x a pool of ill-typed, ill-shaped, out-of-range and wrong-kind arguments; a call that
+    # raises must leave the complete HDF5 content as it was
+    from concurrent.futures import ThreadPoolExecutor
+    parts = 8
+    nfz = None if ctx.tier == "thorough" else 640
+
+    def fz(i):
+        return ctx.run_impl_in("impl_refusalfuzz.py", {"seed": ctx.seed, "n": nfz, "part": i, "parts": parts}, "fz%d" % i, timeout=3000)
+    with ThreadPoolExecutor(max_workers=parts) as ex:
+        res = list(ex.map(fz, range(parts)))
+    fz_bad = [v for r in res for v in r["violations"]]
+    ctx.coverage["refusal_fuzz"] = {"enumerated": res[0]["enumerated"], "run": sum(r["run"] for r in res),
+                                    "refused": sum(r["refused"] for r in res), "accepted": sum(r["accepted"] for r in res),
+                                    "no_valid_template": sum(r["skipped"] for r in res), "failures": len(fz_bad)}
+    ctx.coverage["evaluations"] += sum(r["refused"] for r in res)
+    if fz_bad and not ctx.violations:
+        fz_bad.sort(key=lambda v: len(v["call"]))
+        rp = ctx.write_replay("%s-fuzz-seed%d.json" % (ID, ctx.seed), {
+            "property": ID, "kind": "a refused call changed the file", "input": {"call": fz_bad[0]["call"]},
+            "observed": {"exception": fz_bad[0]["exception"], "changed": fz_bad[0]["changed"]}, "count": len(fz_bad),
+            "all": sorted(set(v["call"] for v in fz_bad))[:60],
+            "how_to_replay": "harness/impl_refusalfuzz.py on the file built by impl_refusals.base(); the call is named in input.call"})
+        ctx.violation("%d refused calls of the refusal fuzzer changed the file, e.g. %s (%s): %r" % (
+            len(fz_bad), fz_bad[0]["call"], fz_bad[0]["exception"], fz_bad[0]["changed"][:3]), rp)
     # dimension calls: every refusal class, on linked and unlinked dimensions
     import dimlink
     cov = dimlink.stage(ctx, st, 1200 if ctx.tier == "thorough" else 150, 18 if ctx.tier == "thorough" else 14,
